@@ -12,10 +12,18 @@ CHECKS = {
    technique="explicit-state model checking (stateright, exhaustive bounded enumeration of inputs on the real tokenizer, invariant on every state)",
    text="Every string over a trigger alphabet (one symbol per shortcut in the normalisation / lattice / plugin code) up to the stated length, in five fabricated worlds and modes A/B/C, is tokenized by the real code and the partition / lossless-surface invariant is evaluated on every state, including on-demand splits. Exhaustive within the bound; says nothing beyond the alphabet and length bound.",
    ref="DESIGN.md §3 C01"),
+ "C02": dict(
+   technique="explicit-state model checking (stateright) of the real Viterbi search: exhaustive bounded enumeration of texts x cost worlds, reference = brute-force enumeration of all lattice paths plus independent DP over the observed lattice",
+   text="For every text over a 3-symbol alphabet up to the bound, in every cost world (baseline plus deviations to the i16 limits, ties, negative costs, layered user dictionaries, three OOV provider types), the lattice of the real tokenizer is read through the verif hook; every node sequence tiling the text is enumerated and the returned path must be a lattice path, reproduce total_cost() from word parameters and matrix, and reach the minimum; the dictionary node set is cross-checked against a naive CSV scan, on a reused tokenizer.",
+   ref="DESIGN.md §3 C02"),
  "C03": dict(
    technique="explicit-state model checking (stateright): exhaustive enumeration of all Unicode scalars in contexts, bounded strings and generated length-boundary families on the real tokenizer built with debug assertions and overflow checks",
    text="Every Unicode scalar value (alone and in contexts), every string of the C01 trees, complete generated families around the 49,149 / 65,535 byte limits and cost extremes are tokenized by the real code with assertions on; panics, wrong Ok/Err verdicts (predicted by arithmetic) and unsafe accessors are violations. Exhaustive within those families; allocation failure and stack exhaustion are out of reach.",
    ref="DESIGN.md §3 C03"),
+ "C13": dict(
+   technique="explicit-state model checking (stateright): exhaustive bounded enumeration of texts x definition-flag worlds on the real lattice builder, reference = textbook MeCab candidate model with greedy left-to-right class runs",
+   text="For every string up to the bound over an alphabet with multi-class characters, combining marks (ALL NOOOVBOW), ZWJ (NOOOVBOW2), emoji modifiers and small kana, in worlds varying invoke/group/length of one class at a time and in six provider orders (MeCab, simple, regex strict/relaxed), the set of OOV nodes at every reachable lattice position, the class runs, the word-start flags and the fields of OOV morphemes are compared with the reference; runs of 62..130 characters cover the created-words bitset.",
+   ref="DESIGN.md §3 C13"),
  "C07": dict(
    technique="explicit-state model checking (stateright): all 1,112,064 scalars in context and all bounded strings through the real input-text plugins, compared state by state with a reference normaliser",
    text="The real DefaultInputText / ProlongedSoundMark / IgnoreYomigana plugins are run on every scalar value in several contexts (forcing both code paths) and on every string up to the bound over a trigger alphabet under four rewrite tables (prefix keys, multi-character keys and values, exempt characters), each table loaded twice; every result must equal the reference function written from the statement.",
